@@ -137,6 +137,12 @@ func writeWorkspace() (string, error) {
 }
 
 func loadUniverse(name string, bc BuildConfig, allDeps bool) (*Universe, error) {
+	return loadUniverseOverlay(name, bc, allDeps, nil)
+}
+
+// loadUniverseOverlay loads with in-memory replacements for some files (thorough tier's kill matrix; nothing is
+// written to the repository).
+func loadUniverseOverlay(name string, bc BuildConfig, allDeps bool, overlay map[string][]byte) (*Universe, error) {
 	env := baseEnv()
 	var dir string
 	var patterns []string
@@ -164,7 +170,7 @@ func loadUniverse(name string, bc BuildConfig, allDeps bool) (*Universe, error) 
 	if allDeps {
 		mode |= packages.NeedDeps // LoadAllSyntax: dependencies from source, with SSA bodies
 	}
-	cfg := &packages.Config{Mode: mode, Dir: dir, Env: env, Tests: false, Fset: token.NewFileSet()}
+	cfg := &packages.Config{Mode: mode, Dir: dir, Env: env, Tests: false, Fset: token.NewFileSet(), Overlay: overlay}
 	if bc.Tags != "" {
 		cfg.BuildFlags = []string{"-tags=" + bc.Tags}
 	}
